@@ -21,7 +21,7 @@ PROPS = {
              "request; distinct = SHA-256 of the abstract script",
         assumptions=ORACLE_ASSUME,
     ),
-    "C15": dict(
+    "C15O": dict(
         mc=[dict(tla="Oracle_MC.tla", cfg="Oracle_MC_C15.cfg", tier="quick", timeout=300),
             dict(tla="Oracle_MC.tla", cfg="Oracle_MC_C15_deep.cfg", tier="thorough", timeout=1500)],
         gen=dict(tla="Oracle_Gen.tla", cfg="Oracle_Gen_C15.cfg", depth=24, num=dict(quick=300, thorough=4000), timeout=900),
@@ -31,4 +31,7 @@ PROPS = {
              "deactivation, a rejected activation, or an expiry",
         assumptions=ORACLE_ASSUME,
     ),
+    # C15 is decided by two specifications: the oracle half (request-expiry misses, MsgActivate) and the feeds half
+    # (price misses with grace periods; FeedsPrice.tla, entry C15F in feedsprice.py)
+    "C15": dict(parts=["C15O", "C15F"]),
 }
